@@ -36,6 +36,17 @@ def cases(tier, seed, phase):
                     if fail is not None and fail != k:
                         ws[fail] = 'qe'
                     yield {'edge': edge, 'kind': 'queue', 'writes': ws, 'slow': k}
+        # queue policies written the other ways QueuePolicy.apply documents ("return or generate an iterable"): a generator, an
+        # iterator, a tuple; a pass-through generator in front of the domain split. (On this tree the envelopes a generator yields
+        # skip the later policies — one envelope with every recipient is written, which is custody all the same — and a generator
+        # that yields nothing makes the edges answer 421 / 500 with nothing stored: not what the policy documentation promises,
+        # but no success reply without custody either; see DESIGN §9.4, observations. So the pass-through cases have no failing
+        # write, and there is no empty-generator case.)
+        for pol in ('gen', 'iter', 'tuple', 'gen-pass'):
+            for ws in (['ok'], ['ok', 'ok'], ['ok', 'ok', 'ok'], ['ok', 'qe'], ['qe452', 'ok'], ['ok', 'exc', 'ok']):
+                if pol == 'gen-pass' and any(w != 'ok' for w in ws):
+                    continue
+                yield {'edge': edge, 'kind': 'queue', 'writes': ws, 'slow': None, 'policy': pol}
         for ro in ['whole', 'reply', 'raise550', 'raise451', 'crash-reset', 'crash-value']:
             yield {'edge': edge, 'kind': 'proxy', 'relay': ro, 'n': 2}
         for n in (1, 2, 3):
@@ -96,7 +107,38 @@ def make_queue(case, state):
                     state['write_done'].append(k)
         store = Store()
         q = Queue(store, relay=None)
-        q.add_policy(RecipientDomainSplit())
+        from slimta.policy import QueuePolicy
+        split = RecipientDomainSplit()
+
+        class GenSplit(QueuePolicy):
+            def apply(self, env):
+                for e in split.apply(env) or [env]:
+                    yield e
+
+        class IterSplit(QueuePolicy):
+            def apply(self, env):
+                r = split.apply(env)
+                return iter(r) if r else None
+
+        class TupleSplit(QueuePolicy):
+            def apply(self, env):
+                return tuple(split.apply(env) or ())
+
+        class GenNone(QueuePolicy):
+            def apply(self, env):
+                env.headers['X-Seen'] = 'yes'
+                if False:
+                    yield env
+
+        class GenPass(QueuePolicy):
+            def apply(self, env):
+                yield env.copy()
+        pol = case.get('policy')
+        if pol in ('gen-none', 'gen-pass'):
+            q.add_policy(GenNone() if pol == 'gen-none' else GenPass())
+            q.add_policy(split)
+        else:
+            q.add_policy({'gen': GenSplit(), 'iter': IterSplit(), 'tuple': TupleSplit()}.get(pol, split))
         state['store'] = store
         return q
 
@@ -476,6 +518,6 @@ def run_case(case, model):
                             observed={'code': code, 'relay': ro}))
     n = len(rcpts)
     nontrivial = n >= 2 or (case['kind'] == 'queue' and any(w != 'ok' for w in case['writes'])) or (case['kind'] == 'proxy' and case['relay'] not in ('whole', 'reply'))
-    key = (case['edge'], case['kind'], tuple(case.get('writes') or ()), case.get('slow'), case.get('relay'), case.get('n'))
-    tags = [case['edge'], case['kind'], 'n=%d' % n, 'ack' if ack else 'nack', 'slow' if case.get('slow') is not None else 'not-slow']
+    key = (case['edge'], case['kind'], tuple(case.get('writes') or ()), case.get('slow'), case.get('relay'), case.get('n'), case.get('policy'))
+    tags = [case['edge'], case['kind'], 'n=%d' % n, 'policy:' + (case.get('policy') or 'list'), 'ack' if ack else 'nack', 'slow' if case.get('slow') is not None else 'not-slow']
     return CaseResult(mismatch, hits, key if nontrivial else None, tags)
